@@ -139,8 +139,14 @@ def scenario(ctx, rng, o):
                        Io('ok', rng.choice(['d2048', 'd65536', 'd700']), rng.choice(['s65536', 's1000', 'a']), False)))
             elif r < 0.7 and o.latency:
                 sc.do(('full', rng.choice(['c', 's'])))
-            elif r < 0.9:
+            elif r < 0.88:
                 sc.do(('deliver', rng.choice(['c', 's']), 'ok'))
+            elif r < 0.94 and o.foreign:
+                # datagram / control payload of another flow kind counts towards fullness too
+                end = rng.choice(['c', 's'])
+                ss = t.ssnet
+                cmd = rng.choice([ss.CMD_UDP_DATA, ss.CMD_DNS_RESPONSE if end == 's' else ss.CMD_DNS_REQ])
+                sc.do(('foreign', end, 40000 + rng.randrange(50), cmd, tg.payload(rng, rng.choice([10, 600, 1500, 4000]), 77)))
             else:
                 sc.do(('idle', rng.choice(['c', 's'])))
             tg.oracle_prefix(ctx, sc, 'C09', 'bulk phase')
@@ -156,6 +162,51 @@ def scenario(ctx, rng, o):
                               dict(c=t.cmux.too_full, s=t.smux.too_full))
         tg.oracle_alive(ctx, sc, 'C09', 'run')
         return sc.s.ins, sc.s.outs, (w.episodes > 0) if o.latency else True
+    finally:
+        sc.close()
+
+
+def pong_then_foreign(ctx, rng, bufsize, extra):
+    """The PONG that lifts a pause is followed, before the next check_fullness, by more than the budget of
+    payload of another flow kind (a UDP/DNS reply, a host list): the end must ask again and must not stay paused."""
+    o = tg.Opts(nflows=1, steps=0, latency=True, bufsize=bufsize)
+    sc = tg.Scenario(rng, o)
+    w = Watch(sc, True)
+    real_do = sc.do
+
+    def do(st):
+        if sc.stop:
+            return
+        w.before()
+        real_do(st)
+        if not sc.stop and not w.after(ctx, st):
+            sc.stop = True
+    sc.do = do
+    try:
+        t = sc.t
+        full = Io('ok', 'd65536', 's65536', False)
+        sc.do(('accept',))
+        sc.do(('deliver', 's', 'ok'))
+        sc.do(('deliver', 's', 'ok'))
+        sc.env_write(0, 'app', tg.payload(rng, 6 * bufsize + 3000, 3))
+        sc.do(('cb', 'c', 0, full))
+        sc.do(('full', 'c'))                               # over budget: PING, paused
+        while t.cmux.outbuf and not sc.stop:
+            sc.do(('deliver', 's', 'ok'))                  # DATA and the PING reach the server; PONG queued
+        while t.smux.outbuf and not sc.stop:
+            sc.do(('deliver', 'c', 'ok'))                  # PONG reaches the client
+        sc.do(('foreign', 'c', 40001, t.ssnet.CMD_UDP_DATA, tg.payload(rng, extra, 9)))
+        sc.do(('full', 'c'))
+        sc.do(('ae', 0))
+        sc.do(('de', 0))
+        q = sc.drain(max_rounds=400)
+        if not sc.stop:
+            tg.oracle_complete(ctx, sc, 'C09', q)
+            if q and (t.cmux.too_full or t.smux.too_full):
+                tg.report(ctx, sc, 'C09:wedge:too-full-at-quiescence', 0, 'quiescence', 'not too_full',
+                          dict(c=t.cmux.too_full, s=t.smux.too_full))
+        tg.oracle_alive(ctx, sc, 'C09', 'run')
+        return sc.s.ins, sc.s.outs
     finally:
         sc.close()
 
@@ -180,11 +231,18 @@ def run(ctx):
     rng = ctx.rng
     server_start(ctx)
     all_in, all_out = [], []
+    for bufsize, extra in ((512, 1200), (100, 101), (2048, 4000)):
+        ins, outs = pong_then_foreign(ctx, rng, bufsize, extra)
+        all_in.append(ins)
+        all_out.append(outs)
+        ctx.count()
+        ctx.mark(('pong-then-foreign', bufsize), True)
+        ctx.hist('directed:pong-then-foreign')
     n = ctx.scale(36, 1200)
     for k in range(n):
         o = tg.Opts(nflows=rng.choice([1, 2, 3, 4]), steps=rng.randrange(30, 120), latency=(k % 4 != 0),
                     bufsize=rng.choice([1, 5, 6, 7, 100, 2047, 2048, 2049, 32768, 1000000]),
-                    big=(k % 17 == 0), both=rng.random() < 0.5)
+                    big=(k % 17 == 0), both=rng.random() < 0.5, foreign=(k % 2 == 1))
         ins, outs, nontrivial = scenario(ctx, rng, o)
         all_in.append(ins)
         all_out.append(outs)
